@@ -1318,3 +1318,24 @@ MUTANTS += [
     dict(name='recycled_queue_on_create', props=['C01', 'C04'], rules=['MQ1'], desc='create_queue re-uses the MemQueue of the last deleted queue',
          edits=[(QS, '        self.queues.insert(queue.to_string(), MemQueue::default());', '        let mem_queue = self.queues.remove("").unwrap_or_default();\n        self.queues.insert(queue.to_string(), mem_queue);')]),
 ]
+
+# ---- mutants for the rules / clauses added after the sixth seeded round
+MUTANTS += [
+    dict(name='disk_usage_counts_written_bytes', props=['C06', 'C14'], rules=['DU1'], desc='disk usage = full files + what the BufWriter handed to the OS for the last one',
+         edits=[(DIR, '        self.directory.files.count() * FILE_NUM_BYTES\n', '        (self.directory.files.count() - 1) * FILE_NUM_BYTES + (self.offset - self.file.buffer().len())\n')]),
+    dict(name='truncate_entry_range_clamped', props=['C01', 'C02', 'C04'], rules=['LOG6'], desc='the Truncate entry records a range clamped to the last position, memory uses the caller range',
+         edits=[(MRL, '''                .write_record(MultiPlexedRecord::Truncate {
+                    truncate_range,
+                    queue,
+                })?;''', '''                .write_record(MultiPlexedRecord::Truncate {
+                    truncate_range: ..=truncate_range.end.min(self.in_mem_queues.last_position(queue)?.unwrap_or(truncate_range.end)),
+                    queue,
+                })?;''')]),
+    dict(name='empty_frame_accepted_unchecked', props=['C08', 'C12'], rules=['FR10'], desc='Header::check accepts frames with len == 0 without comparing the checksum',
+         edits=[(HDR, '        crc32(payload, self.frame_type as u8) == self.checksum\n', '        if self.len == 0 {\n            return payload.is_empty();\n        }\n        crc32(payload, self.frame_type as u8) == self.checksum\n')]),
+    dict(name='queue_emptiness_by_payload_bytes', props=['C01', 'C04', 'C18'], rules=['MQ2'], desc='MemQueue::is_empty tests the payload buffer instead of the metas',
+         edits=[(Q, '        self.record_metas.is_empty()\n    }\n\n    pub(crate) fn first_file_number', '        self.concatenated_records.len() == 0\n    }\n\n    pub(crate) fn first_file_number')]),
+    dict(name='replay_file_clone_refreshed_late', props=['C06', 'C01'], rules=['FH3'], desc='the replay loop refreshes its file clone after applying a record (skipped by the Corruption arm)',
+         edits=[(MRL, '        loop {\n            let file_number = record_reader.read().current_file().clone();\n', '        let mut file_number = record_reader.read().current_file().clone();\n        loop {\n'),
+                (MRL, '            } else {\n                break;\n            }\n        }\n        // io errors are non-recoverable\n', '            } else {\n                break;\n            }\n            file_number = record_reader.read().current_file().clone();\n        }\n        drop(file_number);\n        // io errors are non-recoverable\n')]),
+]
